@@ -47,6 +47,33 @@ def _start(ctx: Ctx, attach) -> None:
 # ---------------------------------------------------------------------------------------------
 
 
+def prelude(w, same_request: bool = False, idle_ms: int = 0) -> bool:
+    """An earlier, fault-free, complete transaction on the same handler objects and the same filestore (not
+    judged: monitors are attached afterwards). With same_request the very request of the run is executed
+    (same path, size and content), otherwise the file goes to dst/prev.bin."""
+    c = w.cfg
+    if c.metadata_only:
+        return False
+    req = w.put_request_obj(None)
+    if not same_request:
+        req.dest_file = Path("dst/prev.bin")
+    saved = (w.link.enabled, w.link.hook, dict(w.link.partition), w.pacing, w.fs_fault)
+    w.link.enabled, w.link.hook, w.pacing, w.fs_fault = set(), None, "regular", None
+    w.call(w.a, "src", "put", arg=req)
+    w.start_polls()
+    w.run()
+    ok = w.all_idle()
+    w.heap.clear()
+    w.pending = 0
+    w.polls_stopped = True
+    w.link.enabled, w.link.hook, part, w.pacing, w.fs_fault = saved
+    w.link.last_fault_t = None
+    if idle_ms:
+        w.clock.now_ms += idle_ms
+    w.probe("prelude_transaction")
+    return ok
+
+
 def faultfree(t, attach=None, force=None) -> Ctx:
     """C02 population: perfect link, plain shell, timers far away, tape-decided pacing."""
     f = {"shell": "plain", "ack_s": BIG, "nak_s": BIG, "check_s_send": BIG, "check_s_recv": BIG}
@@ -129,6 +156,10 @@ def chaos(t, attach=None, force=None, allow_extra=True, pre=None) -> Ctx:
         cfg.finish()
     w = World(t, cfg)
     ctx = Ctx(w, "chaos_weakck" if weak_ck else "chaos")
+    # a fifth of the runs: the same file was already delivered once to the same path through the same handler and
+    # filestore objects (whatever they remember of it must not vouch for the second delivery)
+    if t.choose(5, "prelude") == 4:
+        prelude(w, same_request=True, idle_ms=[0, 1500, 9000][t.choose(3, "prelude idle")])
     kinds = {"drop", "dup", "delay"}
     mask = t.choose(8, "kind mask")
     en = {k for i, k in enumerate(("drop", "dup", "delay")) if not mask & (1 << i)} or kinds
@@ -165,7 +196,7 @@ def chaos(t, attach=None, force=None, allow_extra=True, pre=None) -> Ctx:
             at = [20, 60, 150, 400, 900, 1600, 2800, 5000][t.choose(8, "extra at")]
             dur = [200, 800, 2500, 6000][t.choose(4, "extra dur")]
             who = t.choose(2, "extra who")
-            w.push(at, ("fn", _mk_extra(kind, who, dur, extras)))
+            w.push(w.clock.t + at, ("fn", _mk_extra(kind, who, dur, extras)))
     elif allow_extra:
         n_ops = t.weighted([4, 3, 2], "n extra ops weak")
         for _ in range(n_ops):
@@ -173,7 +204,7 @@ def chaos(t, attach=None, force=None, allow_extra=True, pre=None) -> Ctx:
             at = [20, 60, 150, 400, 900, 1600, 2800, 5000][t.choose(8, "extra at")]
             dur = [200, 800, 2500, 6000][t.choose(4, "extra dur")]
             who = t.choose(2, "extra who")
-            w.push(at, ("fn", _mk_extra(kind, who, dur, extras)))
+            w.push(w.clock.t + at, ("fn", _mk_extra(kind, who, dur, extras)))
     w.max_events = 2500
     w.max_t = 90_000
     if t.choose(3, "pacing") == 2:
